@@ -88,6 +88,93 @@ def driver_grid(info, text, module="dagrtmod"):
     return "\n".join(L) + "\n"
 
 
+def instrument(text):
+    """Insert a marker (write statement) after every allocation check, release and pointer assignment of the
+    generated module -- in the generated text, never in the generator."""
+    out = []
+    stmt = ""
+    in_sub = False
+    for ln in text.split("\n"):
+        out.append(ln)
+        s = ln.strip()
+        if s.startswith("!") or not s:
+            continue
+        m = re.match(r"subroutine (\w+)", s)
+        if m:
+            in_sub = not (m.group(1).startswith("dagrt_alloc_check_") or m.group(1).startswith("dagrt_deinit_"))
+        if s.startswith("end subroutine"):
+            in_sub = False
+        if s.endswith("&"):
+            stmt += s[:-1].strip() + " "
+            continue
+        stmt += s
+        full, stmt = stmt, ""
+        if not in_sub:
+            continue
+        ind = ln[:len(ln) - len(ln.lstrip())]
+        m = re.match(r"call dagrt_alloc_check_\w+\((.*)\)$", full)
+        if m:
+            out.append("%swrite(*,'(A)') 'MEM alloc %s'" % (ind, [x.strip() for x in m.group(1).split(",")][-2]))
+            continue
+        m = re.match(r"call dagrt_deinit_\w+\((.*)\)$", full)
+        if m:
+            out.append("%swrite(*,'(A)') 'MEM deinit %s'" % (ind, [x.strip() for x in m.group(1).split(",")][-2]))
+            continue
+        m = re.match(r"([\w%]+) => ([\w%]+)$", full)
+        if m:
+            out.append("%swrite(*,'(A)') 'MEM passign %s %s'" % (ind, m.group(1), m.group(2)))
+    return "\n".join(out)
+
+
+def marker_traces(method, seqs):
+    """Compile the marker-instrumented module once and run the input sequences; returns [(nruns, log, clean)]."""
+    import shutil
+    import subprocess
+    import tempfile
+    text, info = fortran.generate(method)
+    drv = driver_grid(info, text)
+    d = tempfile.mkdtemp(prefix="verif_mark_")
+    out = []
+    try:
+        for n, t in (("dagrtmod.f90", instrument(text)), ("driver.f90", drv)):
+            with open(os.path.join(d, n), "w") as f:
+                f.write(t)
+        p = subprocess.run([fortran.FC, "-g", "-O0", "-ffree-line-length-none"] + ASAN + ["-o", "prog", "dagrtmod.f90", "driver.f90"],
+                           cwd=d, stdout=subprocess.PIPE, stderr=subprocess.STDOUT, text=True, timeout=180)
+        if p.returncode != 0:
+            raise tlc.MachineryError("instrumented module does not compile: %s" % p.stdout[-300:])
+        env = dict(os.environ, ASAN_OPTIONS="detect_leaks=1:exitcode=23")
+        for seq in seqs:
+            inp = "%d\n" % len(seq) + "".join("%d %d\n" % c for c in seq)
+            r = subprocess.run([os.path.join(d, "prog")], input=inp, cwd=d, stdout=subprocess.PIPE, stderr=subprocess.PIPE,
+                               text=True, timeout=60, env=env)
+            log = []
+            for ln in r.stdout.split("\n"):
+                if ln.startswith("MEM "):
+                    parts = ln.split()
+                    log.append([parts[1], parts[2], parts[3] if len(parts) > 3 else ""])
+            out.append((len(seq), log, not classify(r.stderr) and "SHUTDOWN-DONE" in r.stdout))
+        return out
+    finally:
+        shutil.rmtree(d, ignore_errors=True)
+
+
+def trace_cases(args):
+    from .common import use_repo
+    use_repo()
+    method, seqs = args
+    m = stepper.resolve_fresh(method)
+    text, _info = fortran.generate(m)
+    base = tlc_case(text)
+    keys = ("subs", "allvec", "allrc", "locals", "flags", "phaselits", "assoclits")
+    out = []
+    for nruns, log, clean in marker_traces(m, seqs):
+        c = {k: base[k] for k in keys}
+        c.update(log=log, nruns=nruns, clean=clean)
+        out.append(c)
+    return out
+
+
 def classify(stderr):
     out = set()
     if "LeakSanitizer: detected memory leaks" in stderr:
@@ -208,7 +295,7 @@ def run(chk):
     if warn:
         raise tlc.MachineryError("extractor met text it does not understand: %s" % warn[:3])
     tl = [{k: c[k] for k in ("subs", "allvec", "allrc", "locals", "flags", "phaselits", "assoclits")} for c in ok]
-    cfg = tlc.temp_cfg("CONSTANT MaxRuns = %d\nINIT Init\nNEXT Next\nCHECK_DEADLOCK FALSE\nINVARIANT Safety\n"
+    cfg = tlc.temp_cfg("CONSTANTS\n MaxRuns = %d\n MaxIters = 2\nINIT Init\nNEXT Next\nCHECK_DEADLOCK FALSE\nINVARIANT Safety\n"
                        "INVARIANT NoLeakAtShutdown\nCONSTRAINT Bound\n" % (2 if chk.quick else 3))
     out = tlc.judge_batch("RefCount", tl, cfg=cfg, chunk=8, workers=2, jobs=8, chk=chk, timeout=2400)
     chk.stage("tlc_model_check")
@@ -222,6 +309,21 @@ def run(chk):
     with multiprocessing.Pool(NCPU) as pool_:
         dyn = pool_.map(confirm, [ok[k]["method"] for k in todo + spot], chunksize=1)
     chk.stage("sanitizer_runs")
+    # marker traces of real runs must be behaviours of the extracted skeleton (binds extractor + model to the binary)
+    tsel = [ok[k]["method"] for k in range(min(len(ok), 12 if chk.quick else 80))]
+    tseqs = [[(0, 0)], [(3, 0), (1, 2)], [(1, 0), (3, 2), (0, 2)]]
+    with multiprocessing.Pool(NCPU) as pool_:
+        tcs = [c for lst in pool_.map(trace_cases, [(m, tseqs) for m in tsel], chunksize=1) for c in lst]
+    tcs_clean = [c for c in tcs if c["clean"]]
+    tkeys = ("subs", "allvec", "allrc", "locals", "flags", "phaselits", "assoclits", "log", "nruns")
+    tout = tlc.judge_batch("TraceRefCount", [{k: c[k] for k in tkeys} for c in tcs_clean], chunk=6, workers=1, jobs=12,
+                           tags=("ACC",), chk=chk, timeout=1800)
+    accepted = {t[1] for t in tout["ACC"]}
+    if len(accepted) != len(tcs_clean):
+        k = [i for i in range(len(tcs_clean)) if i not in accepted][0]
+        raise tlc.MachineryError("marker trace of a real run is not a behaviour of the extracted skeleton (extractor or heap "
+                                 "model misrepresents the generated code): %d runs, log %s" % (tcs_clean[k]["nruns"], tcs_clean[k]["log"][:12]))
+    chk.stage("marker_traces")
     confirmed = unconfirmed = 0
     nruns = 0
     for k, (seen, n) in zip(todo + spot, dyn):
@@ -258,7 +360,8 @@ def run(chk):
         "programs_with_model_violation": len(model), "confirmed_on_binary": confirmed,
         "model_violations_not_reproduced": unconfirmed, "clean_programs_spot_checked_under_sanitizer": len(spot),
         "sanitizer_runs": nruns,
-        "traces_validated_against_impl": nruns,
+        "marker_traces_validated": len(tcs_clean), "marker_events": sum(len(c["log"]) for c in tcs_clean),
+        "traces_validated_against_impl": nruns + len(tcs_clean),
         "samples": sample([{"program": progs.show_prog(c["method"]["phases"][0]["calls"]),
                             "pointers": c["allvec"], "instructions": sum(len(v) for v in c["subs"].values())} for c in ok], 3),
     })
@@ -272,7 +375,7 @@ def replay(chk, rep):
     m = rep["case"]["method"]
     case = prepare(m)
     tl = {k: case[k] for k in ("subs", "allvec", "allrc", "locals", "flags", "phaselits", "assoclits")}
-    cfg = tlc.temp_cfg("CONSTANT MaxRuns = 3\nINIT Init\nNEXT Next\nCHECK_DEADLOCK FALSE\nINVARIANT SafetyStrict\n"
+    cfg = tlc.temp_cfg("CONSTANTS\n MaxRuns = 3\n MaxIters = 2\nINIT Init\nNEXT Next\nCHECK_DEADLOCK FALSE\nINVARIANT SafetyStrict\n"
                        "INVARIANT NoLeakAtShutdownStrict\nCONSTRAINT Bound\n")
     res = tlc.run_tlc("RefCount", cfg=cfg, env={"CASES": tlc.write_cases([tl])}, workers=2)
     chk.add_tlc(res)
